@@ -31,8 +31,8 @@ def demo_cmd():
     c = re.split(r"\s{2,}\(|\s{2,}#", c)[0]
     c = re.sub(r"^\(1\)\s*", "", c)
     c = re.split(r"\s+\(2\)\s+", c)[0]
-    c = re.sub(r"cd /tmp/seed-C\d\d\s*&&\s*", "", c)
-    c = c.replace("/tmp/seed-%s" % meta["property"], wt)
+    c = re.sub(r"cd /tmp/seed2?-C\d\d\s*&&\s*", "", c)
+    c = c.replace("/tmp/seed2-%s" % meta["property"], wt).replace("/tmp/seed-%s" % meta["property"], wt)
     c = c.strip()
     m = re.match(r"^(.*?)\s*;\s*(rm\s+[^;&|]+)$", c, flags=re.S)
     if m:  # keep the test's exit code, not rm's
@@ -44,6 +44,8 @@ subprocess.check_call(["git", "-C", "/repo", "worktree", "add", "--detach", wt],
 try:
     os.makedirs(os.path.join(wt, "seed"), exist_ok=True)
     shutil.copytree(seed, os.path.join(wt, "seed", name), dirs_exist_ok=True)
+    if os.path.isdir(os.path.join(seed, "sim")):  # helper tree shared by a seeding agent's demos (expected at seed/sim)
+        shutil.copytree(os.path.join(seed, "sim"), os.path.join(wt, "seed", "sim"), dirs_exist_ok=True)
     dc = demo_cmd()
     res["demo_cmd_used"] = dc
     if not skip_demo:
@@ -52,6 +54,8 @@ try:
         res["demo_without_patch_tail"] = out[-1500:]
         sh("git checkout -- . ; git clean -fdq -e seed", cwd=wt)
         shutil.copytree(seed, os.path.join(wt, "seed", name), dirs_exist_ok=True)
+        if os.path.isdir(os.path.join(seed, "sim")):
+            shutil.copytree(os.path.join(seed, "sim"), os.path.join(wt, "seed", "sim"), dirs_exist_ok=True)
     rc, out = sh("git apply seed/%s/patch.diff" % name, cwd=wt)
     res["patch_applies"] = rc == 0
     if rc != 0:
